@@ -7,4 +7,6 @@ CONSTANTS
   PathLen = 3
   MaxReq = 1
   SepCheck = TRUE
+  Spells = {"plain"}
+  Methods = {"GET", "HEAD"}
 CHECK_DEADLOCK FALSE
